@@ -149,7 +149,7 @@ def render_spec(o, depth, kw, ann, spec, headers, hdr_body):
     b = spec["b"]
     form = spec["form"]
     k = b["k"]
-    has_children = headers or form == "child"
+    has_children = headers or form == "child" or bool(spec.get("extra"))
     if form == "param":
         if k == "ref":
             o.line(depth, "%s %s%s" % (kw, o.par(b["n"]), ann), kw)
@@ -186,6 +186,8 @@ def render_spec(o, depth, kw, ann, spec, headers, hdr_body):
         else:
             o.line(depth + 1, "Body", "Body")
             o.lines(depth + 1, body_lines(b))
+    for x in spec.get("extra") or []:
+        render_block(o, x, depth + 1)
     o.close(depth, op)
 
 
